@@ -52,12 +52,14 @@ CouplingClauses(gg, r) ==
        ToSet(r.wcd) = WeakDiscs(gg) /\ Len(r.wcd) = Cardinality(WeakDiscs(gg))) \cup
   Fail("couplings", "StrongGroups",
        {ToSet(r.sgroups[k]) : k \in 1..Len(r.sgroups)} = StrongGroups(gg) /\ Len(r.sgroups) = Cardinality(StrongGroups(gg))) \cup
-  Fail("couplings", "OutputCouplings",
-       \A p \in Pos(gg) : /\ ToSet(r.outc[p][1]) = OutCouplings(gg, p, TRUE)
-                          /\ ToSet(r.outc[p][2]) = OutCouplings(gg, p, FALSE)) \cup
+  Fail("couplings", "OutputCouplings",     \* get_output_couplings(d, strong) = outputs of d among the strong / all couplings
+       LET st == StrongC(gg)  al == AllC(gg) IN
+       \A p \in Pos(gg) : /\ ToSet(r.outc[p][1]) = gg.outs[p] \cap st
+                          /\ ToSet(r.outc[p][2]) = gg.outs[p] \cap al) \cup
   Fail("couplings", "InputCouplings",
-       \A p \in Pos(gg) : /\ ToSet(r.inc[p][1]) = InCouplings(gg, p, TRUE)
-                          /\ ToSet(r.inc[p][2]) = InCouplings(gg, p, FALSE)) \cup
+       LET st == StrongC(gg)  al == AllC(gg) IN
+       \A p \in Pos(gg) : /\ ToSet(r.inc[p][1]) = gg.ins[p] \cap st
+                          /\ ToSet(r.inc[p][2]) = gg.ins[p] \cap al) \cup
   Fail("couplings", "FindDiscipline",      \* find_discipline(v): a discipline producing v (0: raised)
        \A k \in 1..Len(r.finder) :
           LET v == r.finder[k][1]  p == r.finder[k][2]
@@ -103,13 +105,16 @@ Failed(r) ==
            \cup CouplingClauses(gg, r)
            \cup UNION {RunClauses(gg, r.runs[k], mono) : k \in 1..Len(r.runs)})
 
-RInit ==                        \* the state: the system rebuilt from the code, the reported sequence
+RInit ==                        \* one behaviour per report
   /\ rid \in 1..Len(Reports)
   /\ code = FromJson(R.code)
-  /\ g = Decode(FromJson(R.code))
+  /\ g = Blank /\ pc = "reported" /\ cond = {} /\ stages = <<>>
+Judge ==                        \* the state: the system rebuilt from the code, the reported sequence
   /\ pc = "reported"
-  /\ cond = {}
-  /\ stages = IF R.status = "ok" THEN R.seq ELSE <<>>
-RNext == UNCHANGED <<rid, vars>>
-Verdict == PrintT(<<"VERDICT", R.id, Failed(R)>>)
+  /\ g' = Decode(code)
+  /\ stages' = IF R.status = "ok" THEN R.seq ELSE <<>>
+  /\ pc' = "judged"
+  /\ UNCHANGED <<rid, code, cond>>
+RNext == Judge
+Verdict == (pc = "judged") => PrintT(<<"VERDICT", R.id, Failed(R)>>)
 ================================================================================
